@@ -144,13 +144,16 @@ func (o *OracleC05) AfterBlock(c *Chain, b *BlockCtx) []*Violation {
 	o.count("pool_checks")
 
 	// ---- SDK staking invariants named by the statement
-	for name, inv := range map[string]func() (string, bool){
-		"non-negative-power":  func() (string, bool) { return stakingkeeper.NonNegativePowerInvariant(app.StakingKeeper)(v.ctx) },
-		"positive-delegation": func() (string, bool) { return stakingkeeper.PositiveDelegationInvariant(app.StakingKeeper)(v.ctx) },
-		"delegator-shares":    func() (string, bool) { return stakingkeeper.DelegatorSharesInvariant(app.StakingKeeper)(v.ctx) },
+	for _, iv := range []struct {
+		name string
+		inv  func() (string, bool)
+	}{
+		{"non-negative-power", func() (string, bool) { return stakingkeeper.NonNegativePowerInvariant(app.StakingKeeper)(v.ctx) }},
+		{"positive-delegation", func() (string, bool) { return stakingkeeper.PositiveDelegationInvariant(app.StakingKeeper)(v.ctx) }},
+		{"delegator-shares", func() (string, bool) { return stakingkeeper.DelegatorSharesInvariant(app.StakingKeeper)(v.ctx) }},
 	} {
-		if msg, broken := inv(); broken {
-			out = append(out, o.v(b.H, "sdk-invariant", name, "%s", truncate(msg, 300)))
+		if msg, broken := iv.inv(); broken {
+			out = append(out, o.v(b.H, "sdk-invariant", iv.name, "%s", truncate(msg, 300)))
 		}
 	}
 	return out
